@@ -24,6 +24,12 @@ import (
 // Writer — which uses the reader's own WriteTo if it has one — or io.ReadAll.
 var readBufs = []int{1, 2, 100, 4096, 65535, 65536, 65537, 200000, ax.CopyMode, ax.ReadAllMode}
 
+var quickBigBufs = []int{1, 100, 4096, 65535, 65536, 65537, 200000, ax.CopyMode, ax.ReadAllMode}
+
+// schedules the white-space family runs under in the quick tier
+var wsQuickSchedules = map[string]bool{"whole": true, "whole+eof": true, "1byte": true, "1byte+eof": true, "7": true, "random": true,
+	"bufio16over1byte": true, "bufio4096": true, "bufio16/counted": true}
+
 func bufName(b int) string {
 	switch b {
 	case ax.CopyMode:
@@ -169,8 +175,8 @@ func readAll(rd io.Reader, bufSize int, o *outcome, phase string, after func(rel
 			return
 		}
 		if n == 0 {
-			if zero++; zero > 1000 {
-				o.err, o.phase = "verif: reader made no progress in 1000 calls", phase
+			if zero++; zero > 5000 {
+				o.err, o.phase = "verif: reader made no progress in 5000 calls", phase
 				return
 			}
 		} else {
@@ -369,6 +375,25 @@ func (m *monitor) baselines(f *dfile) {
 		f.bDearmor, _ = m.runDearmor(f, bytes.NewReader(f.data), nil, 0, b)
 		r.Eval(1)
 		r.Tab("baseline_dearmor_result", errClass(f.bDearmor.err))
+		// age.Decrypt over the armored text must behave like age.Decrypt over
+		// what plain de-armoring releases ("through a buffered reader or not")
+		nf := &dfile{base: f.base, class: f.class, data: f.data, id: f.id, hdr16: f.hdr16}
+		want, _ := m.runDecrypt(nf, dearmoredSource(f), nil, 0, b)
+		r.Eval(1)
+		r.Count("decrypt_vs_dearmored_checks", 1)
+		if f.leadLines >= 100 {
+			r.Count("lead100_runs/decrypt-vs-dearmored", 1)
+		}
+		if !want.equal(f.bDecrypt) {
+			kc := f.class
+			if f.kclass != "" {
+				kc = f.kclass
+			}
+			rp := f.replay()
+			rp["decrypt_over_armor"], rp["decrypt_over_dearmored_bytes"], rp["plain_dearmor"] = f.bDecrypt.String(), want.String(), f.bDearmor.String()
+			r.Violate("decrypt-differs-from-dearmored:"+kc, fmt.Sprintf("%s: age.Decrypt(armor.NewReader(text)) gives %s, but plain de-armoring (Read loop) releases %s and age.Decrypt over exactly that gives %s",
+				f.name(), f.bDecrypt, f.bDearmor, want), rp)
+		}
 	}
 	if f.parseToo {
 		f.bParse, _ = m.runParse(f, bytes.NewReader(f.data), nil, 0, b)
@@ -520,9 +545,19 @@ func groupOf(layer string, f *dfile, bufio, buf int) groupKey {
 // compare records one compared run and, if it differs from the baseline, the
 // mismatch; violations are reported by reportDiffers after the sweep so that
 // a result that differs under every schedule gets one key, not sixteen.
+// compareKind is compare for a named consumer kind.
+func (m *monitor) compareKind(layer string, f *dfile, s sched, kind string, got, want *outcome) {
+	gk := groupOf(layer, f, 0, 1)
+	gk.consume = "/consume=" + kind
+	m.compareG(gk, layer, f, s, 0, kind, got, want)
+}
+
 func (m *monitor) compare(layer string, f *dfile, s sched, bufio, buf int, got, want *outcome) {
+	m.compareG(groupOf(layer, f, bufio, buf), layer, f, s, bufio, bufName(buf), got, want)
+}
+
+func (m *monitor) compareG(gk groupKey, layer string, f *dfile, s sched, bufio int, how string, got, want *outcome) {
 	f.runs.Add(1)
-	gk := groupOf(layer, f, bufio, buf)
 	eq := got.equal(want)
 	m.gmu.Lock()
 	g := m.groups[gk]
@@ -549,10 +584,10 @@ func (m *monitor) compare(layer string, f *dfile, s sched, bufio, buf int, got, 
 		return
 	}
 	rp := f.replay()
-	rp["layer"], rp["schedule"], rp["handed_in_bufio_size"], rp["read_buffer_or_mode"] = layer, s.name, bufio, bufName(buf)
+	rp["layer"], rp["schedule"], rp["handed_in_bufio_size"], rp["read_buffer_or_mode"] = layer, s.name, bufio, how
 	rp["got"], rp["want"] = got.String(), want.String()
-	what := fmt.Sprintf("%s through %s, schedule %s, handed-in bufio %d, read buffer/mode %s: got %s; baseline (bytes.Reader, 32 KiB Read loop) gave %s",
-		f.name(), layer, s.name, bufio, bufName(buf), got, want)
+	what := fmt.Sprintf("%s through %s, schedule %s, handed-in bufio %d, read buffer/mode/consumer %s: got %s; baseline (bytes.Reader, 32 KiB Read loop) gave %s",
+		f.name(), layer, s.name, bufio, how, got, want)
 	if !bytes.Equal(got.out, want.out) {
 		what += fmt.Sprintf("; released bytes first differ at %d", firstDiff(got.out, want.out))
 	}
@@ -634,6 +669,20 @@ func (m *monitor) runTask(t task) {
 	bufs1, bufs2 := readBufs, readBufs
 	if f.marmor {
 		bufs1, bufs2 = marmorDecryptBufs, marmorBufs
+	} else if !r.Thorough() && len(f.data) > 100000 {
+		// quick tier: on files of two chunks and more the 2-byte read buffer
+		// repeats the 1-byte one at the same cost
+		bufs1 = quickBigBufs
+		bufs2 = quickBigBufs
+		if deliveryClass(s.name) == "trickled" {
+			// a trickling source costs one Read per 1..7 source bytes whatever
+			// the consumer does: fewer consumer sizes go with it on big files
+			bufs1 = []int{1, 4096, 65537, ax.CopyMode}
+			bufs2 = bufs1
+		}
+	}
+	if f.ws && !r.Thorough() && !wsQuickSchedules[s.name] {
+		return
 	}
 
 	// layer 1: age.Decrypt (+ armor.NewReader)
@@ -641,7 +690,12 @@ func (m *monitor) runTask(t task) {
 		src, cr := s.mk(f.data, rngFor("decrypt", b))
 		if f.marmor {
 			cr = nil
+		}
+		if f.marmor && !f.ws {
 			r.Count("malformed_armor_runs/age.Decrypt/"+deliveryClass(s.name), 1)
+		}
+		if f.leadLines >= 100 {
+			r.Count("lead100_runs/age.Decrypt", 1)
 		}
 		got, ah := m.runDecrypt(f, src, cr, s.own, b)
 		r.Eval(1)
@@ -660,6 +714,11 @@ func (m *monitor) runTask(t task) {
 			src, cr := s.mk(f.data, rngFor("dearmor", b))
 			if f.marmor {
 				cr = nil
+			}
+			if f.leadLines >= 100 {
+				r.Count("lead100_runs/plain-Read-loop", 1)
+			}
+			if f.marmor && !f.ws {
 				size := "large-read"
 				if b > 0 && b < 48 {
 					size = "small-read"
@@ -673,6 +732,11 @@ func (m *monitor) runTask(t task) {
 			m.compare("armor.NewReader", f, s, 0, b, got, f.bDearmor)
 			m.readAhead("armor.NewReader", f, s, 0, b, ah)
 		}
+	}
+
+	// layer 2b: consumer kinds over armor.NewReader
+	if f.armored && f.bDearmor != nil && kindSchedules[s.name] && (f.marmor || len(f.data) <= 120000 || r.Thorough()) {
+		m.runKinds(f, s, m.kinds, rngFor)
 	}
 
 	// handing in small bufio.Readers makes sense over schedules that are not
